@@ -88,6 +88,13 @@ def skeleton : List (List String × List String × List String) := [
   (["StateQuery"], ["StateFragment"], []),
   (["StateFragment"], [], [])]
 
+def baseCopies : List (String × List String) := [
+  ("StateNoScheme", ["url.scheme = base.scheme", "url.path = base.path", "url.query = base.query"]),
+  ("StateRelative", ["url.scheme = base.scheme", "url.username = base.username", "url.password = base.password", "url.host = base.host", "url.port = base.port", "url.decodedPort = base.decodedPort", "url.path = base.path", "url.query = base.query"]),
+  ("StateRelativeSlash", ["url.username = base.username", "url.password = base.password", "url.host = base.host", "url.port = base.port", "url.decodedPort = base.decodedPort"]),
+  ("StateFile", ["url.host = base.host", "url.path = base.path", "url.query = base.query"]),
+  ("StateFileSlash", ["url.host = base.host"])]
+
 def parserOptionWrites : List (String × List String) := [
   ("WithReportValidationErrors", ["reportValidationErrors"]),
   ("WithFailOnValidationError", ["failOnValidationError"]),
